@@ -744,8 +744,8 @@ Definition copy (f : copy_flags) (s : statedb) : statedb * statedb :=
 
 (* ---- operations -------------------------------------------------------------------- *)
 (* The alphabet follows the EVM's / staking module's usage of the API: SSTORE only
-   on an existing account, CreateAccount always followed by the value transfer
-   (AddBalance, a touch when the value is 0). *)
+   on an existing account, CreateAccount always followed by SetNonce(1) and the
+   value transfer (evm.create). *)
 Inductive sop :=
 | OSetBalance (a v : N) | OAddBalance (a v : N) | OSetNonce (a n : N)
 | OSetCode (a : N) (c : list N) | OSetState (a k v : N) | OSuicide (a : N)
@@ -780,7 +780,7 @@ Definition step (d : database) (s : statedb) (o : sop) : statedb * obs :=
     | Some _ => (with_acc s (set_state_op d a k v (s_acc s)), OL [])
     end
   | OSuicide a => (with_acc s (suicide a (s_acc s)), OL [])
-  | OCreate a v => (with_acc s (add_balance a v (create_account a (s_acc s))), OL [])
+  | OCreate a v => (with_acc s (add_balance a v (set_nonce a 1 (create_account a (s_acc s)))), OL [])
   | OUpdDelegator a v neg amt delete =>
     match update_delegator d a v neg amt delete (s_acc s) with
     | Some s1 => (with_acc s s1, OL [])
@@ -802,6 +802,19 @@ Definition step (d : database) (s : statedb) (o : sop) : statedb * obs :=
   end.
 Definition run (d : database) (s : statedb) (l : list sop) : statedb :=
   fold_left (fun s o => fst (step d s o)) l s.
+
+(* histories of one StateDB with Commit at arbitrary points *)
+Inductive cop := CStep (o : sop) | CCommit (de : bool).
+Definition cstep (ds : database * statedb) (c : cop) : database * statedb :=
+  match c with
+  | CStep o => (fst ds, fst (step (fst ds) (snd ds) o))
+  | CCommit de => commit (fst ds) de (snd ds)
+  end.
+Definition crun (ds : database * statedb) (l : list cop) : database * statedb := fold_left cstep l ds.
+
+(* state.New(common.Hash{}, common.Hash{}, common.Hash{}, db) *)
+Definition genesis : statedb :=
+  mkSt (mkAccs [] [] [] [] []) (mkVals vt_empty [] [] [] [] new_stat false None) (mkStks st_empty [] [] [] false).
 
 (* ---- observations ------------------------------------------------------------------- *)
 Record universe := mkU { u_accts : list N; u_keys : list N; u_vals : list N; u_pairs : list (N * N) }.
@@ -965,7 +978,8 @@ Definition acct_eqb (x y : account ihash) : bool :=
 Definition val_eqb (x y : validator) : bool :=
   N.eqb (v_addr x) (v_addr y) && N.eqb (v_role x) (v_role y) && N.eqb (v_status x) (v_status y)
   && N.eqb (v_token x) (v_token y) && N.eqb (v_stake x) (v_stake y)
-  && list_eqb (pair_eqb (pair_eqb N.eqb N.eqb) N.eqb) (v_dlgs x) (v_dlgs y) && nl_eqb (v_rest x) (v_rest y).
+  && list_eqb (pair_eqb (pair_eqb N.eqb N.eqb) N.eqb) (v_dlgs x) (v_dlgs y) && nl_eqb (v_rest x) (v_rest y)
+  && Bool.eqb (v_deleted x) (v_deleted y).
 Definition kstat_eqb (x y : kstat) : bool :=
   nl_eqb [k_ostake x; k_otoken x; k_ocount x; k_fstake x; k_ftoken x; k_fcount x; k_residue x; k_rewards x]
          [k_ostake y; k_otoken y; k_ocount y; k_fstake y; k_ftoken y; k_fcount y; k_residue y; k_rewards y].
